@@ -267,6 +267,61 @@ pub fn non_contiguous_full_precision_p8() {
     assert!(s == syms[i] && pr.get() == probs[i] && c as u32 == 100 * i as u32, "C03/C10: non-contiguous decoder returns the wrong entry at full precision");
 }
 
+/// C05/C10/C20/C03 (bounded: one table): lookup decoder models at FULL precision (P == Probability::BITS,
+/// where the closing cdf entry wraps to 0), built directly and by conversion from the searched
+/// model: every quantile is answered in bounds and exactly as the searched model answers it.
+#[cfg_attr(kani, kani::proof)]
+#[cfg_attr(kani, kani::unwind(260))]
+pub fn lookup_full_precision_p8() {
+    const P: usize = 8;
+    let probs: [u8; 3] = [100, 100, 56];
+    let m = match ContiguousCategoricalEntropyModel::<u8, Vec<u8>, P>::from_nonzero_fixed_point_probabilities(&probs[..], false) {
+        Ok(m) => m, Err(()) => { assert!(false, "C19: valid full-precision table refused"); return; } };
+    let q: u8 = any();
+    let want = m.quantile_function(q);
+    if group(2) == 0 {
+        let l = m.to_lookup_decoder_model();
+        let got = l.quantile_function(q);
+        assert!(got == want, "C05/C10/C03: lookup model converted from a searched model answers a quantile differently (full precision)");
+    } else {
+        let l = match ContiguousLookupDecoderModel::<u8, Vec<u8>, Box<[u8]>, P>::from_nonzero_fixed_point_probabilities(&probs[..], false) {
+            Ok(l) => l, Err(()) => { assert!(false, "C19: valid full-precision table refused by the lookup constructor"); return; } };
+        let got = l.quantile_function(q);
+        assert!(got == want, "C05/C10/C03: lookup model answers a quantile differently from the searched model built by the same-named constructor (full precision)");
+    }
+}
+
+/// C19/C03 (bounded: all-ones tables of 2..=5 entries at P = 2): the lazy float constructor must
+/// refuse tables with more symbols than it can give one quantum each, and whatever it accepts
+/// tiles [0, 2^P) and inverts exactly.
+#[cfg_attr(kani, kani::proof)]
+#[cfg_attr(kani, kani::unwind(8))]
+pub fn lazy_table_length_p2() {
+    const P: usize = 2;
+    let ones: [f32; 5] = [1.0; 5];
+    let n: usize = any(); assume(n >= 2 && n <= 5);
+    match LazyContiguousCategoricalEntropyModel::<u8, f32, &[f32], P>::from_floating_point_probabilities_fast(&ones[..n], None) {
+        Err(()) => {}
+        Ok(l) => {
+            cover!(true, "some table is accepted");
+            assert!(n <= 4, "C19: lazy model accepted more symbols than there are quanta");
+            let mut next: u32 = 0; let mut s = 0usize;
+            while s < n {
+                match l.left_cumulative_and_probability(s) {
+                    Some((c, p)) => { assert!(c as u32 == next && p.get() != 0, "C19/C03: accepted lazy model does not tile [0,2^P) with non-empty intervals"); next = c as u32 + p.get() as u32; }
+                    None => assert!(false, "C19/C03: accepted lazy model reports an in-support symbol as impossible"),
+                }
+                s += 1;
+            }
+            assert!(next == 1 << P, "C19/C03: accepted lazy model does not end at 2^P");
+            let q: u8 = any(); assume(q < 4);
+            let (sq, cq, pq) = l.quantile_function(q);
+            assert!(sq < n && cq <= q && (q as u32) < cq as u32 + pq.get() as u32, "C19/C03: accepted lazy model does not invert its quantiles");
+            assert!(l.left_cumulative_and_probability(sq) == Some((cq, pq)), "C19/C03: accepted lazy model: quantile_function disagrees with the encoder view");
+        }
+    }
+}
+
 // ------------------------------------------------------------------ float tables (bounded: <= 3 entries, f32)
 
 /// C19/C03/C20 (bounded): from_floating_point_probabilities_fast over ALL f32 bit patterns of
@@ -466,7 +521,7 @@ pub fn quantizer_reject_i16_u8_p8() {
     assume(lo < hi && (hi as i32 - lo as i32) < 256);
     let m = LeakyQuantizer::<f64, i16, u8, 8>::new(lo..=hi).quantize(ZeroCdf);
     let s: i16 = any();
-    assert!(m.left_cumulative_and_probability(s).is_some() == (s >= lo && s <= hi), "C09: quantised model accepts exactly the symbols of its support (no aliasing after narrowing)");
+    assert!(m.left_cumulative_and_probability(s).is_some() == (s >= lo && s <= hi), "C09/C03: quantised model accepts exactly the symbols of its support (no aliasing after narrowing)");
     cover!(s > hi && ((s as i32 - lo as i32) & 0xff) <= (hi as i32 - lo as i32), "out-of-support symbol that aliases an in-support one modulo 2^8");
 }
 
@@ -560,6 +615,7 @@ pub fn lazy_vs_eager_small_p8() {
         }
         // the lazy model on its own terms (C03 / C10): the decoded symbol is in the support, its interval holds
         // the quantile and is the one the encoder view reports
+        assert!(l.left_cumulative_and_probability(s).is_some() == (s < 3), "C09/C03: lazy model must accept exactly the symbols of its support");
         let (sq, cq, pq) = l.quantile_function(q);
         assert!(sq < 3, "C10/C03: lazy model decoded a symbol outside its support");
         assert!(cq <= q && (q as u32) < cq as u32 + pq.get() as u32, "C03/C10: quantile not inside the interval returned by the lazy model");
